@@ -311,9 +311,9 @@ for _oid, _h, _tier, _what, _b in (
         ("O4wf32be", "c09_o4_w_f32_be", "thorough", "write_f32_be", "5+3"), ("O4rf32be", "c09_o4_r_f32_be", "thorough", "read_f32_be", "5+3"),
         ("O4wf64", "c09_o4_w_f64_le", "thorough", "write_f64", "9+3"), ("O4rf64", "c09_o4_r_f64_le", "thorough", "read_f64 (NaN patterns come back as the canonical NaN, never as a forged tagged value)", "9+3"),
         ("O4wf64be", "c09_o4_w_f64_be", "thorough", "write_f64_be", "9+3"), ("O4rf64be", "c09_o4_r_f64_be", "thorough", "read_f64_be", "9+3"),
-        ("O4swap", "c09_o4_swap", "thorough", "swap (both indices checked before either byte moves)", "4+3"),
+        ("O4swap", "c09_o4_swap", "quick", "swap (both indices checked before either byte moves)", "4+3"),
         ("O4reverse", "c09_o4_reverse", "thorough", "reverse of a sub-range", "4+3"),
-        ("O4equals", "c09_o4_equals", "thorough", "equals (reads only; both handles must be live)", "3+3")):
+        ("O4equals", "c09_o4_equals", "quick", "equals (reads only; both handles must be live)", "3+3")):
     ob("C09", _oid, "runtime", "shell.rs", _h, path=SHELL_PATH + _h, tier=_tier, timeout=1800, args=(["--default-unwind", "10"] if _b == "9+3" else U7),
        what="byte buffers, %s: a legal access reads/writes exactly the addressed bytes; out of range, negative, straddling, freed or never-issued handles and non-numeric values are errors that change no byte of any buffer" % _what,
        functions=BYTES_FNS, bounds="two live buffers of %s symbolic bytes + one freed handle; every argument an arbitrary 64-bit Value" % _b, stubs=VM_STUBS)
